@@ -35,8 +35,8 @@ ASSUMPTIONS = [
 
 
 def strategy(tier):
-    big = fsmlab.fsm_desc(max_states=5, max_events=4, timers=False)
-    small = fsmlab.fsm_desc(max_states=3, max_events=2, timers=False)
+    big = fsmlab.fsm_desc(max_states=5, max_events=4, timers=False, flaky=True)
+    small = fsmlab.fsm_desc(max_states=3, max_events=2, timers=False, flaky=True)
     return st.one_of(small, small, big).flatmap(
         lambda d: st.booleans().map(lambda cb: dict(d, cb_driver=cb)))
 
@@ -150,6 +150,8 @@ def execute(case):
     res.classes = [f"states={len(case['states'])}"]
     if model.chained:
         res.classes.append('chained transition')
+    if model.nonfatal:
+        res.classes.append('output event refused by its destination (non-fatal)')
     if model.precedence:
         res.classes.append('specific rule beats any-state rule')
     if model.error:
